@@ -393,7 +393,7 @@ def run(ck):
     corp = corpus()
     for name, c in corp:
         cases.append(("c_" + name, c))
-    d2 = 9 if ck.quick else 12
+    d2 = 8 if ck.quick else 12
     d3 = 5 if ck.quick else 7
     bounds = {}
     for name, c in corp:
